@@ -5,12 +5,14 @@ run the named checks against it in /repo, always revert, and store everything un
 import sys, os, subprocess, json, shutil, re, time
 ID, n, tier = sys.argv[1], sys.argv[2], sys.argv[3]
 props = sys.argv[4:]
-src = f"/tmp/mut/{ID}/out/{n}"
+ROOT = os.environ.get("MUT_ROOT", "/tmp/mut")
+OFF = int(os.environ.get("SEED_OFFSET", "0"))
+src = f"{ROOT}/{ID}/out/{n}"
 patch = f"{src}/patch.diff"
-wt = f"/tmp/mut/confirm-{ID}-{n}"
+wt = f"/tmp/mut/confirm-{ID}-{int(n)+OFF}"
 def sh(cmd, **kw):
     return subprocess.run(cmd, shell=True, stdout=subprocess.PIPE, stderr=subprocess.STDOUT, text=True, **kw)
-meta = {"seeded_for": ID, "variant": int(n), "checked_at": time.strftime("%Y-%m-%d %H:%M:%S"), "repo_head": sh("git -C /repo rev-parse --short HEAD").stdout.strip()}
+meta = {"seeded_for": ID, "variant": int(n) + OFF, "checked_at": time.strftime("%Y-%m-%d %H:%M:%S"), "repo_head": sh("git -C /repo rev-parse --short HEAD").stdout.strip()}
 sh(f"git -C /repo worktree remove --force {wt}")
 r = sh(f"git -C /repo worktree add --detach {wt} HEAD")
 try:
@@ -36,7 +38,7 @@ try:
         cmd = base
         if m:
             c = m.group(1)
-            c = re.sub(r"/tmp/mut/%s/wt" % ID, tree, c)
+            c = re.sub(r"/tmp/mut2?/%s/wt" % ID, tree, c)
             c = re.sub(r"-o\s+\S+", f"-o {exe}", c)
             if "-o " not in c: c += f" -o {exe}"
             cmd = c + " -w"
@@ -76,7 +78,7 @@ finally:
     sh("git -C /repo checkout -- .")
 meta["checks_run"] = {"tier": tier, "results": results}
 meta["detected_by"] = [p for p, r in results.items() if r["exit"] == 1 and r["violation_lines"] > 0]
-dst = f"/verif/seeded/{ID}-{n}"
+dst = f"/verif/seeded/{ID}-{int(n)+OFF}"
 os.makedirs(dst, exist_ok=True)
 open(f"{dst}/patch.diff", "w").write(diff)
 for f in ("demo.cc", "notes.md"):
@@ -84,6 +86,6 @@ for f in ("demo.cc", "notes.md"):
 prop = json.loads([l for l in open("/verif/properties.jsonl") if json.loads(l)["id"] == ID][0])
 meta["breaks_property"] = ID; meta["property_title"] = prop["title"]
 json.dump(meta, open(f"{dst}/meta.json", "w"), indent=1)
-print(f"{ID}-{n}: applies={meta['applies']} suite={meta['suite_with_change']} demo_with={meta['demo_exit_with_change']} demo_without={meta['demo_exit_without_change']} confirmed={meta['confirmed']} detected_by={meta['detected_by']}")
+print(f"{ID}-{int(n)+OFF}: applies={meta['applies']} suite={meta['suite_with_change']} demo_with={meta['demo_exit_with_change']} demo_without={meta['demo_exit_without_change']} confirmed={meta['confirmed']} detected_by={meta['detected_by']}")
 for p, r in results.items():
     print("   ", p, r["exit"], r["violation_lines"], r["wall_s"], (r["first_classes"] or r["internal"] or [""])[0][:220])
